@@ -14,8 +14,9 @@ import (
 	"sync"
 	"time"
 
-	badger "github.com/dgraph-io/badger/v2"
 	etcdRaft "github.com/coreos/etcd/raft"
+	"github.com/coreos/etcd/raft/raftpb"
+	badger "github.com/dgraph-io/badger/v2"
 	pb "github.com/marekgalovic/anndb/protobuf"
 	"github.com/marekgalovic/anndb/services"
 	"github.com/marekgalovic/anndb/storage"
@@ -51,7 +52,8 @@ type Cluster struct {
 	// OnCrash is called when a node's partition log store fires its crash plan.
 	OnCrash func(n *Node)
 
-	mu sync.Mutex
+	mu       sync.Mutex
+	sendViol []string // messages that left a node before what they attest was durable
 }
 
 var (
@@ -62,6 +64,26 @@ var (
 
 func New(n int) *Cluster {
 	c := &Cluster{Net: sim.NewNet()}
+	// every raft message leaving a node is compared with what that node's log store of the group has made durable
+	// (observed on the sender's ready-loop goroutine, before the message is handed to the network)
+	c.Net.OnSendGroup = func(from uint64, group uuid.UUID, m raftpb.Message) {
+		for _, n := range c.Nodes {
+			if n.Id != from {
+				continue
+			}
+			n.mu.Lock()
+			mon := n.Mons[group]
+			n.mu.Unlock()
+			if mon == nil {
+				return
+			}
+			if v := sim.AttestsOnlyDurable(mon.DurableView(), m); v != "" {
+				c.mu.Lock()
+				c.sendViol = append(c.sendViol, fmt.Sprintf("node %d partition %x: %s", n.I, group[:4], v))
+				c.mu.Unlock()
+			}
+		}
+	}
 	for i := 0; i < n; i++ {
 		c.Nodes = append(c.Nodes, &Node{I: i, Id: NodeID(i), DB: hutil.MemDB(), Mons: map[uuid.UUID]*sim.MonWAL{}})
 	}
@@ -250,6 +272,15 @@ func (c *Cluster) Mon(i int, pid uuid.UUID) *sim.MonWAL {
 }
 
 // WalViolations collects log-store invariant violations seen by any monitored store.
+// SendViolations: raft messages that left a node before what they attest was durable in its log store.
+func (c *Cluster) SendViolations() []string {
+	c.mu.Lock()
+	defer c.mu.Unlock()
+	out := c.sendViol
+	c.sendViol = nil
+	return out
+}
+
 func (c *Cluster) WalViolations() []string {
 	var out []string
 	for _, n := range c.Nodes {
